@@ -43,7 +43,10 @@ DEFAULT_FEATURES = {
     "zero_arg_fnvalue": False,   # (p) with p a zero-parameter function value is not a call
     "self_assign": False,
     "break_in_match": False,
-    "void_bare_return": False,   # bare `return` inside a void function: the VM silently ends the program after the call     # break inside a match arm inside a loop: natively it only leaves the C switch        # set x x (string): nanoc's evaluator returns garbage   # (- g) with a negative constant global is transpiled to --1: cc fails
+    "void_bare_return": False,
+    "array_literal_effect": False,
+    "string_field_direct": False,
+    "aggregate_string_alias": False,  # a string variable stored (uncopied) into a struct/union/tuple/array field and reassigned later: nanoc's evaluator leaves the field dangling   # a struct's string field used directly as a let/set value: nanoc's evaluator frees it (garbage / crash)  # effectful element in an array literal: nanoc's evaluator evaluates the first element twice   # bare `return` inside a void function: the VM silently ends the program after the call     # break inside a match arm inside a loop: natively it only leaves the C switch        # set x x (string): nanoc's evaluator returns garbage   # (- g) with a negative constant global is transpiled to --1: cc fails
     "print_indirect_call": False,  # (println (f args)) through a function value prints <unknown> natively  # more than one order-sensitive argument in one argument list (native evaluates right-to-left)
 }
 
@@ -77,6 +80,7 @@ def leaves(e):
 class Scope:
     def __init__(self):
         self.frames = [{}]
+        self.hidden = set()
 
     def push(self):
         self.frames.append({})
@@ -95,6 +99,8 @@ class Scope:
                 if n in seen:
                     continue
                 seen.add(n)
+                if n in self.hidden:
+                    continue
                 if pred is None or pred(n, d):
                     out.append((n, d))
         return out
@@ -559,6 +565,8 @@ class Gen:
             return None
         c = r.choice(cands)
         self.tag({"field": "struct.field", "tidx": "tuple.index", "call": "array.read"}[c[0]])
+        if t == "string" and c[0] == "field" and not self.f["string_field_direct"]:
+            return ("bin", "+", ("str", ""), c)
         return c
 
     def match_expr(self, sc, t, d):
@@ -587,6 +595,18 @@ class Gen:
         scrut = ("var", r.choice(uvars)) if uvars else self.expr(sc, ("union", un), d - 1)
         return ("matche", scrut, arms)
 
+    def fresh_strings(self, types, exprs):
+        """string members of an aggregate literal are made fresh values (see switch aggregate_string_alias)"""
+        if self.f["aggregate_string_alias"]:
+            return exprs
+        out = []
+        for t, e in zip(types, exprs):
+            if t == "string" and not (e[0] == "str" or (e[0] == "bin" and e[1] == "+") or
+                                      (e[0] == "call" and e[1] in ("int_to_string", "str_concat", "str_substring", "string_from_char"))):
+                e = ("bin", "+", ("str", ""), e)
+            out.append(e)
+        return out
+
     def expr_aggregate(self, sc, t, d):
         r = self.r
         v = sc.of_type(t)
@@ -604,11 +624,18 @@ class Gen:
         if k == "array":
             self.tag("array.literal." + A.tstr(t[1]))
             n = r.randint(0, 4) if self.chance(0.85) else r.randint(5, 12)
-            return ("arr", t[1], self.arg_list(sc, [t[1]] * n, max(0, d - 1)))
+            save = self.no_effects
+            if not self.f["array_literal_effect"]:
+                self.no_effects = True
+            try:
+                return ("arr", t[1], self.fresh_strings([t[1]] * n, self.arg_list(sc, [t[1]] * n, max(0, d - 1))))
+            finally:
+                self.no_effects = save
         if k == "struct":
             self.tag("struct.literal")
             fs = self.structs[t[1]]
-            return ("structlit", t[1], list(zip([f for f, _ in fs], self.arg_list(sc, [ft for _, ft in fs], max(0, d - 1)))))
+            tys = [ft for _, ft in fs]
+            return ("structlit", t[1], list(zip([f for f, _ in fs], self.fresh_strings(tys, self.arg_list(sc, tys, max(0, d - 1))))))
         if k == "tuple":
             self.tag("tuple.literal")
             return ("tuple", self.arg_list(sc, list(t[1]), max(0, d - 1)))
@@ -618,7 +645,8 @@ class Gen:
         if k == "union":
             self.tag("union.construct")
             v, fs = r.choice(self.unions[t[1]])
-            return ("unionlit", t[1], v, list(zip([f for f, _ in fs], self.arg_list(sc, [ft for _, ft in fs], max(0, d - 1)))))
+            tys = [ft for _, ft in fs]
+            return ("unionlit", t[1], v, list(zip([f for f, _ in fs], self.fresh_strings(tys, self.arg_list(sc, tys, max(0, d - 1))))))
         if k == "fn":
             c = [s for s in self.sigs if tuple(pt for _, pt in s.params) == t[1] and s.ret == t[2]
                  and (not s.imported or self.f["import_fnvalue"]) and s.name != self.cur_fn
@@ -766,7 +794,14 @@ class Gen:
             return [("set", n, self.expr(sc, t, 2))]
         n, d = self.r.choice(c)
         self.tag("set")
-        e = self.expr(sc, d["t"], 2)
+        hide = d["t"] == "string" and not self.f["self_assign"]
+        if hide:
+            # `set s <expression that may evaluate to s itself>` (e.g. through cond) is the self-assignment defect
+            sc.hidden.add(n)
+        try:
+            e = self.expr(sc, d["t"], 2)
+        finally:
+            sc.hidden.discard(n)
         if e == ("var", n) and not self.f["self_assign"]:
             e = self.literal(d["t"])
         return [("set", n, e)]
@@ -1236,11 +1271,17 @@ class Gen:
             if good:
                 sh = [("print", ("str", "<<S " + f.name), True)]
                 mb = [("print", ("str", "<<S " + f.name), True)]
-                for obs, call, expect in good:
+                for ai, (obs, call, expect) in enumerate(good):
                     sh += obs
                     mb += obs
                     if expect is not None:
-                        sh.append(("assert", ("bin", "==", call, expect)))
+                        cond = ("bin", "==", call, expect)
+                        sh.append(("assert", cond))
+                        # the compiled program reports the truth value of the same assertion (C03 oracle 2)
+                        av = self.fresh("a")
+                        mb.append(("print", ("str", "A<"), True))
+                        mb.append(("let", av, "bool", False, cond))
+                        mb.append(("print", ("bin", "+", ("str", "A>%s#%d=" % (f.name, ai)), ("cond", [(("var", av), ("str", "true"))], ("str", "false"))), True))
                 sh.append(("print", ("str", ">>E " + f.name), True))
                 mb.append(("print", ("str", ">>E " + f.name), True))
                 f.shadow = sh
@@ -1285,11 +1326,12 @@ def make_program(rng, features=None, size=1.0, tries=60):
         g = Gen(sub, features, size)
         try:
             prog = g.generate()
-        except RecursionError:
-            prog = None
+            exp = evaluate(prog) if prog is not None else None
+        except (RecursionError, TypeError, KeyError, IndexError, AttributeError):
+            # a construct the generator could not complete (e.g. no function of a requested function type exists)
+            prog = exp = None
         if prog is None:
             continue
-        exp = evaluate(prog)
         if exp is None:
             continue
         # every shadow assertion must hold in a program meant to be accepted
